@@ -15,6 +15,8 @@ extern crate rustc_driver;
 extern crate rustc_hir;
 extern crate rustc_interface;
 extern crate rustc_middle;
+extern crate rustc_mir_dataflow;
+extern crate rustc_index;
 extern crate rustc_session;
 extern crate rustc_span;
 
